@@ -19,16 +19,18 @@ SPECS = {
                     "lossy decoder) + differential run: bumpalo String vs std String vs the model on generated programs, decoders vs std on all "
                     "byte strings of length <= 3 and structured longer ones.",
     ),
-    # String part of C16 (a panicking `retain` closure must leave valid UTF-8).  Stand-alone entry the lead can wrap:
-    # oracle lines carry property C16 (`oracle_prop`); when run as ./check C16S they are re-labelled C16S.
+    # String part of C16 (a panicking `retain` closure must leave valid UTF-8).  Stand-alone entry the lead wraps into C16:
+    # oracle lines carry property C16 (`oracle_prop`); `run(ctx)` works with ctx.prop == "C16" (lines kept as they are)
+    # and with ctx.prop == "C16S" (./check C16S: lines re-labelled C16S).
     "C16S": dict(
         family="str", lean_module="BumpVerif.Proofs.StrPanic", level="proof", oracle_prop="C16",
         fields=["res", "bytes", "len"], ops=["s_retain"],
         nontrivial_ops=["s_retain"],
         str_jobs=[("retain", 200, 50), ("sweep", 12, 0), ("general", 60, 50)],
         decoders=False, thorough_scale=20, trusted_extra=STR_TRUSTED,
-        partial=["C16_string_retain_valid_partial (the full statement is false on the pinned tree: F6)"],
-        explanation="retain with a panic injected at every closure index; str::from_utf8(as_bytes()) after catch_unwind; the model reproduces "
-                    "the stale bytes the crate leaves (F6).",
+        explanation="Theorems: String::retain as the source has it (drop guard detected by the translator) leaves valid UTF-8 for every "
+                    "closure answer list and every panic index, and every program continuing after such panics stays valid; without the guard "
+                    "the statement is false (counterexample = F6 of 3.17.0).  Run: retain with a panic injected at every closure index; "
+                    "str::from_utf8(as_bytes()) after catch_unwind; the model recomputes the bytes the crate leaves.",
     ),
 }
